@@ -165,3 +165,75 @@ func init() {
 	// writes a thread does right after leaving a critical section interleave with the other threads
 	register(&Scenario{Prop: "C03", Name: "c03/cuts-servecodec-unlock-points", Quick: []Bound{{1, 0}}, Thorough: []Bound{{2, 0}}, Body: c03Body(sysModes[:1], 5), UnlockPoints: true, BudgetQ: 30})
 }
+
+// Transport.Close against in-flight use of a Transport: callers that are dialling, waiting for
+// a dial, or waiting for a response when Close runs all return (with a result or an error); so
+// does Close.  Two or three callers of one host (and one of another), every call form.
+func c03TransportClose(x *X) {
+	lim := [][2]int{{1, 1}, {2, 2}}[x.Choose(2)]
+	pre := x.Choose(2) == 1 // a connection already exists
+	gated := x.Choose(2) == 1
+	t := newTrSys(x, "C03", lim[0], lim[1])
+	if pre {
+		t.call("a", formCall)
+	}
+	type rc struct {
+		c   *ucall
+		ret bool
+		err error
+	}
+	var rs []*rc
+	for i := 0; i < 3; i++ {
+		flags := byte(0)
+		if gated && i == 0 {
+			flags = fGate
+		}
+		r := &rc{c: newUcall(byte(0x50+i), flags, 20, formCall)}
+		rs = append(rs, r)
+		addr := "a"
+		if i == 2 {
+			addr = "b"
+		}
+		form := []int{formCall, formGo, formPing}[i]
+		vs.GoNamed(fmt.Sprintf("racer%d", i), func() {
+			switch form {
+			case formGo:
+				done := make(chan *rpc.Call, 1)
+				call := t.tr.Go(addr, r.c.method, &r.c.args, &r.c.reply, done)
+				recvCall(done)
+				r.err = call.Error
+			case formPing:
+				r.err = t.tr.Ping(addr)
+			default:
+				r.err = t.tr.Call(addr, r.c.method, &r.c.args, &r.c.reply)
+			}
+			r.ret = true
+		})
+	}
+	closed := false
+	vs.GoNamed("closer", func() { t.tr.Close(); closed = true })
+	vs.Quiesce()
+	t.w["a"].open(0x50)
+	vs.Quiesce()
+	if !closed {
+		x.Fail("C03/transport-close-hangs", "Transport.Close did not return")
+	}
+	out := ""
+	for i, r := range rs {
+		if !r.ret {
+			x.Fail("C03/caller-hangs/transport-close", "caller %d of a Transport that was closed while it was in use never returned (limits %v, a connection existed before: %v)", i, lim, pre)
+		}
+		out += fmt.Sprintf(" %v/%s", r.ret, errStr(r.err))
+	}
+	x.Outcome("lim=%v pre=%v gated=%v%s", lim, pre, gated, out)
+	for _, a := range []string{"a", "b"} {
+		if t.up[a] {
+			t.srv[a].Close()
+		}
+	}
+	vs.Quiesce()
+}
+
+func init() {
+	register(&Scenario{Prop: "C03", Name: "c03/transport-close-in-use", Quick: []Bound{{1, 0}}, Thorough: []Bound{{2, 0}}, Body: c03TransportClose, MaxSteps: 200000, BudgetQ: 25})
+}
